@@ -59,12 +59,17 @@ def main():
             rc, o = sh(f"{PY} -m pytest -q -p no:cacheprovider --timeout=900 2>&1 | tail -3", cwd=wt, timeout=3000)
             res["tests"] = o.strip().splitlines()[-1] if o.strip() else ""
         if props:
+            # a snapshot of the whole machinery (harness, driver, model, proofs, tables): edits made to /verif while
+            # this evaluation runs cannot mix an old driver with a new generator
             shutil.rmtree(lean, ignore_errors=True)
-            sh(["cp", "-a", os.path.join(VERIF, "lean"), lean])
-            env = {"PYP0F_REPO": wt, "VERIF_LEAN": lean, "VERIF_OUT": out}
+            os.makedirs(lean)
+            sh(["rsync", "-a", "--exclude", ".git", "--exclude", "seeded", "--exclude", "evidence", "--exclude", "replays",
+                "--exclude", "__pycache__", VERIF + "/", lean + "/"])
+            out = lean
+            env = {"PYP0F_REPO": wt, "VERIF_LEAN": "", "VERIF_OUT": ""}
             res["checks"] = {}
             for p in props:
-                rc, o = sh([os.path.join(VERIF, "check"), p, "--tier", tier], cwd=VERIF, env=env, timeout=7200)
+                rc, o = sh([os.path.join(lean, "check"), p, "--tier", tier], cwd=lean, env=env, timeout=7200)
                 lines = [l for l in o.splitlines() if l.startswith(("VIOLATION", "KNOWN-FINDING", "INFRA"))]
                 rp = None
                 for l in lines:
